@@ -149,6 +149,7 @@ class PyMachine:
                 "imr": e.memory.read_byte(INTERNAL_MEMORY_START + 0xFB) & 0xFF, "isr": e.memory.read_byte(INTERNAL_MEMORY_START + 0xFC) & 0xFF,
                 "pw": "halt" if getattr(e.cpu.state, "halted", False) else "run", "inint": int(bool(e._in_interrupt)), "pend": int(bool(e._irq_pending)),
                 "tot": int(e.irq_counts.get("total", 0)), "instr": int(e.instruction_count), "cyc": int(e.cycle_count),
+                "src": {"MTI": 0, "STI": 1, "KEY": 2, "ONK": 3}.get(e.last_irq.get("src"), -1),
                 "nm": int(sch.next_mti) if live_m else 0, "ns": int(sch.next_sti) if live_s else 0}
 
     def step_obs(self):
@@ -180,7 +181,10 @@ def run_script(m, script: List[Dict[str, Any]], tid: int) -> List[Dict[str, Any]
         if pc <= VEC < pc + len(bs) + 1:
             pass
         r = m.step_obs()
-        out.append({"tid": tid, "ev": "Step", "kind": ins["k"], "len": len(bs), "vec": VEC, "env": [e["ev"] for e in pending_env],
+        clr = 0
+        for bit in (ins.get("m", []) if ins["k"] == "CLRISR" else []):
+            clr |= 1 << bit
+        out.append({"tid": tid, "ev": "Step", "kind": ins["k"], "len": len(bs), "vec": VEC, "clr": clr, "env": [e["ev"] for e in pending_env],
                     "pre": r["pre"], "post": r["post"], "frame": r["frame"], "err": r["err"] or ""})
         pending_env = []
         # keep the handler entry a NOP for the next delivery
